@@ -414,6 +414,20 @@ pub fn build_node(it: &J) -> P {
             arr(it, "fields").iter().map(build_node).collect(),
             kind == "adj" || b(it, "adjacent"),
         ),
+        "any" => {
+            // escape hatch: consumes items that start with `@`
+            let a = any::<OsString, _, _>(metavar(it), |x: OsString| {
+                if x.to_string_lossy().starts_with('@') {
+                    Some(x)
+                } else {
+                    None
+                }
+            });
+            let a = if b(it, "anywhere") { a.anywhere() } else { a };
+            let h = s(it, "help");
+            let a = if h.is_empty() { a } else { a.help(leak(&dstr(h))) };
+            a.map(os_val).boxed()
+        }
         "pure" => pure(Val::Unit).boxed(),
         "fail" => fail::<Val>(leak("FAILMSG")).boxed(),
         other => panic!("unknown node kind {:?}", other),
